@@ -51,6 +51,7 @@ WEAK void hk_wait_enter(struct vt_wait *w) { (void)w; }
 WEAK void hk_wait_return(struct vt_wait *w) { (void)w; }
 WEAK void hk_wait_block(struct vt_wait *w) { (void)w; }
 WEAK int  hk_quiescent(void) { return 0; }
+WEAK void hk_idle(void) { }
 WEAK void hk_dead_end(void)
 {
 	static const char m[] = "VT dead end: nothing can happen any more and no harness hook\n";
@@ -695,6 +696,8 @@ static int try_quiesce(struct vthr *me)
 		return Q_NONE;
 
 	vt_stats.quiescences++;
+	/* every thread is blocked and nothing is in flight: whatever is still owed now is stuck until an unrelated deadline */
+	hk_idle();
 
 	for (i = 0; i < nstim; i++)
 		if (best_kind != 1 || stims[i].t < best ||
